@@ -14,7 +14,7 @@ SPEC = dict(
                "found by asking it about every word of its own text (about 90); entries for other platforms whose command starts with such a name with letters "
                "glued on (gits, dockerx, create-react-apps) are planted in the databases and swept systematically: they are not that tool. A quarter of the databases "
                "are loaded from hand-style YAML files with anchors and aliases (what an entry declares is what the file says, by position); one growth step hands "
-               "the same entries over again with only platforms and pipeline flags changed, after requests were cached.",
+               "the same entries over again with only platforms and pipeline flags changed, after requests were cached. At the CLI every database is also asked, with a word of an entry declared for this host only, for platforms no list of known names holds (freebsd, solaris, haiku, plan9 ...).",
     level_note="No completeness clause is asserted (C03 covers completeness under all-platforms). Host platform = runtime.GOOS of the sandbox (linux).",
     engines=[dict(name="filters", shards=T(16, 16), timeout=T(900, 3600)),
              dict(name="filters-cli", shards=T(16, 16), timeout=T(900, 3600), needs_wtf=True)],
